@@ -363,6 +363,78 @@ theorem immutable_setref_rejected_ext (s : St) (t src : Target) (slot : Nat) {x 
     Model.HeapX.stepX s (.assignRef t slot src) = (s.skip, .err attributeError) := by
   simp [Model.HeapX.stepX, ht, hs, ho, hseq, hcur, hk, hm]
 
+/-- **immutables never change** (extended catalogue, any aliasing): no operation changes the class,
+    the value slots or the references of an immutable object — only its cache slots may be filled -/
+theorem immutable_slots_stable_ext {s : St} (hinv : InvX s.heap) (op : OpX) {a : Addr} {o : Obj}
+    (ho : s.heap[a]? = some o) (hm : o.isMut = false) :
+    ∃ o' : Obj, (Model.HeapX.stepX s op).1.heap[a]? = some o' ∧ o'.isMut = false ∧ o'.sc = o.sc ∧ o'.refs = o.refs := by
+  obtain ⟨o', ho', e1, e2, e3⟩ := (trx_step hinv op).keep a o ho (Or.inl hm)
+  exact ⟨o', ho', by rw [e1, hm], e2, e3⟩
+
+/-- … hence **a snapshot is never affected**: the value (and so the serialisation, identifiers, hash,
+    equality) of an immutable object is the same after any operation — edits through any alias of the
+    object it was taken from, signature hashing, script verification, further copies … -/
+theorem immutable_value_stable_ext {s : St} (hinv : InvX s.heap) (op : OpX) {a : Addr} {o : Obj} {v : Val}
+    (ho : s.heap[a]? = some o) (hm : o.isMut = false) (hv : absVal s.heap a = some v) :
+    absVal (Model.HeapX.stepX s op).1.heap a = some v := by
+  simp only [absVal] at hv ⊢
+  cases hu : unfoldA D s.heap a with
+  | none => simp [hu] at hv
+  | some t =>
+    rw [unfoldA_keep hinv.immClosed hinv.kindOK hinv.typed (trx_step hinv op).keep hu
+      (fun o' ho' => by rw [ho] at ho'; cases ho'; exact Or.inl hm)]
+    simpa [hu] using hv
+
+/-- the same over any history -/
+theorem immutable_value_stable_run_ext {s : St} (hinv : InvX s.heap) (ops : List OpX) {a : Addr} {o : Obj} {v : Val}
+    (ho : s.heap[a]? = some o) (hm : o.isMut = false) (hv : absVal s.heap a = some v) :
+    absVal (Model.HeapX.runX s ops).1.heap a = some v := by
+  simp only [absVal] at hv ⊢
+  cases hu : unfoldA D s.heap a with
+  | none => simp [hu] at hv
+  | some t =>
+    rw [unfoldA_keep hinv.immClosed hinv.kindOK hinv.typed (trx_run ops hinv).keep hu
+      (fun o' ho' => by rw [ho] at ho'; cases ho'; exact Or.inl hm)]
+    simpa [hu] using hv
+
+/-- **identifiers reflect the current field values, shared ones included**: `GetHash()` on any target
+    returns the identifier of the value obtained by walking the object graph as it is now -/
+theorem getHash_reflects_value_ext {s : St} (hinv : InvX s.heap) (t : Target) {x : Addr} {o : Obj} {v : Val}
+    (ht : s.target t = some x) (ho : s.heap[x]? = some o) (hv : absVal s.heap x = some v) (hs : o.sc.isSeq = false) :
+    (Model.HeapX.stepX s (.base (.getHash t))).2 = .bytes (identOf v) := by
+  obtain ⟨h', hg⟩ := heap_ident_eq_value_ext hinv ho hv
+  show (Model.Heap.step s (.getHash t)).2 = _
+  simp [Model.Heap.step, observeAt, ht, ho, hv, hs, hg]
+
+/-- `serialize()` likewise (no cache is involved: this is the definition of the model) -/
+theorem ser_reflects_value_ext (s : St) (t : Target) {x : Addr} {o : Obj} {v : Val}
+    (ht : s.target t = some x) (ho : s.heap[x]? = some o) (hv : absVal s.heap x = some v) (hs : o.sc.isSeq = false) :
+    (Model.HeapX.stepX s (.base (.ser t))).2 = .bytes (serVal v) := by
+  show (Model.Heap.step s (.ser t)).2 = _
+  simp [Model.Heap.step, observeAt, ht, ho, hv, hs]
+
+-- UNPROVED (full statement): the heap model of the extended catalogue refines the store of cells with
+-- explicit aliasing (`Spec.AliasSem`), on every observable, for every history:
+--
+--   theorem refines_alias_spec (ops : List OpX) :
+--       (Model.HeapX.runX Model.Heap.init ops).2 = (Spec.AliasSem.runX Spec.AliasSem.init ops).2
+--
+-- together with its corollary `copy_unaffected_ext` (serialising a name after any later history that
+-- does not write a cell reachable from it yields the serialisation it had).  What is proved instead
+-- (`…_ext` above): the invariant `InvX` for every operation and history (`inv_step_ext`,
+-- `inv_reachable_ext`), hence correctness of every cache under arbitrary aliasing (`cache_correct_ext`,
+-- `heap_ident_eq_value_ext`, `getHash_reflects_value_ext`); immutability of every immutable object and
+-- stability of its value — snapshots are never affected — under every operation and history
+-- (`immutable_slots_stable_ext`, `immutable_value_stable_ext`, `immutable_value_stable_run_ext`);
+-- freshness of everything writable in a mutable copy at the time it is made (`copy_fresh_ext`);
+-- `RawSignatureHash`/`VerifyScript` leave every existing object as it is (`sighash_preserves_heap_ext`,
+-- `verify_preserves_heap_ext`).  Missing for the full statement: the simulation relation between
+-- addresses of mutable objects and cells (an injection extended by every allocation) and its
+-- preservation by the 32 operations; in particular that a mutable copy stays unaffected by LATER edits
+-- of other objects (it follows from `copy_fresh_ext` plus a frame argument per operation).  The
+-- statement is tied by T2 instead: `c09.xcheck` runs every generated history on `Model.HeapX` and on
+-- `Spec.AliasSem` and compares all observations (harness: every case of both tiers).
+
 /-! ### non-vacuity: concrete histories -/
 
 def tx0 : Tx :=
@@ -400,5 +472,18 @@ example :
     (∀ op ∈ [Op.assign ⟨0, [0, 0, 0]⟩ (.n 7), .appendOut 0 ⟨1, []⟩, .sighash 0 [0x51] 0 1],
       op.edits = some 1 → (⟨false, .tx tx0⟩ : Entry).isMut = false) :=
   ⟨rfl, fun _ _ _ => rfl⟩
+
+/-- aliasing through the extended catalogue: `tx1.vin = tx0.vin`, snapshot of `tx1`, edit through
+    `tx0`: the two mutable transactions change together, the snapshot does not; the default witness is
+    list-backed and its cached hash stays right after `tx.wit = …` -/
+example :
+    (Model.HeapX.runX Model.Heap.init
+      [.base (.newTx tx0), .newTxDefault tx0, .assignRef ⟨1, []⟩ 0 ⟨0, [0]⟩, .base (.snapshot ⟨1, []⟩),
+       .base (.eq ⟨0, []⟩ ⟨1, []⟩), .base (.assign ⟨0, [0, 0, 0]⟩ (.n 7)), .base (.eq ⟨0, []⟩ ⟨1, []⟩),
+       .base (.eq ⟨1, []⟩ ⟨3, []⟩), .base (.getHash ⟨1, [2]⟩), .base (.setWit 1 [[[1]]]),
+       .base (.eq ⟨1, [2]⟩ ⟨3, [2]⟩)]).2 =
+    [.created, .created, .done, .created, .bool (.ok true), .done, .bool (.ok true), .bool (.ok false),
+     .bytes (identOf (.wit [[]])), .done, .bool (.ok false)] := by
+  rfl
 
 end BtcVerif.C09
